@@ -385,10 +385,60 @@ def _for_over(ex, stmt, st, it, key, lc):
     raise OutsideSubset('for over %r' % (it,))
 
 
+def _unroll_while(ex, stmt, st, limit=48):
+    """a while loop without a loop contract whose guard is DECIDED in every state reached (concrete data, e.g. the explicit
+    node shapes): executed iteration by iteration.  None if some guard is not decided (the caller then cuts the loop)."""
+    marks = len(ex.goals)
+    pend0 = list(getattr(ex, '_pending_raises', []))
+    cur, done = [st.fork()], []
+    try:
+        for _ in range(limit):
+            if not cur:
+                return done
+            nxt = []
+            for s in cur:
+                r = ex.eval(stmt.test, s)
+                if len(r) != 1:
+                    raise _NotDecided()
+                s1, v = r[0]
+                t = ex.truth(v, s1)
+                if not isinstance(t, bool):
+                    if smt.entails(s1.pc, t):
+                        t = True
+                    elif smt.entails(s1.pc, z3.Not(t)):
+                        t = False
+                    else:
+                        raise _NotDecided()
+                if not t:
+                    done.append((s1, Outcome.NEXT, None))
+                    continue
+                for s2, oc, val in ex.exec_block(stmt.body, s1):
+                    if oc in (Outcome.NEXT, Outcome.CONT):
+                        nxt.append(s2)
+                    elif oc == Outcome.BREAK:
+                        done.append((s2, Outcome.NEXT, None))
+                    else:
+                        done.append((s2, oc, val))
+            cur = nxt
+        raise _NotDecided()
+    except (_NotDecided, PyExc):
+        del ex.goals[marks:]
+        ex._pending_raises = pend0
+        return None
+
+
+class _NotDecided(Exception):
+    pass
+
+
 def exec_while(ex, stmt, st):
     key, lc = loop_contract(ex, stmt)
     if stmt.orelse:
         raise OutsideSubset('while/else')
+    if not lc:
+        r = _unroll_while(ex, stmt, st)
+        if r is not None:
+            return r
 
     def guard(s):
         # the guard may fork (case splits on list positions) or raise (partial operations): every outcome is followed
